@@ -4,6 +4,8 @@
  *   parse <flags> <hex>      -> st=<class> [<canonical dump>]
  *   xname <abuf-hex> <off>   -> st=<class> [n=<hex> len=<enclen>]
  *   xstr  <abuf-hex> <off>   -> st=<class> [s=<hex> len=<enclen>]
+ *   split <name-hex>         -> st=<class> [w=<wire hex>]   presentation name -> labels, through
+ *                               ares_dns_name_write(buf, NULL, ARES_FALSE, name) (ares_split_dns_name)
  *
  * Every input byte string is copied into an exact-size heap block so that a read one byte
  * outside the supplied buffer is an ASan report.  One output line per input line.  Each operation
@@ -121,6 +123,41 @@ static void do_xname(int nt, char **t, int is_str)
   free(buf);
 }
 
+static void do_split(int nt, char **t)
+{
+  size_t         len = 0;
+  unsigned char *raw;
+  char          *name;
+  ares_buf_t    *b;
+  ares_status_t  st;
+  if (nt != 2) {
+    puts("bad-op");
+    return;
+  }
+  raw = exact_copy(t[1], &len);
+  if (memchr(raw, 0, len) != NULL) { /* not a C string */
+    puts("bad-op");
+    free(raw);
+    return;
+  }
+  name = malloc(len + 1);
+  memcpy(name, raw, len);
+  name[len] = 0;
+  b         = ares_buf_create();
+  st        = ares_dns_name_write(b, NULL, ARES_FALSE, name);
+  printf("st=%s", hcodec_stclass((int)st));
+  if (st == ARES_SUCCESS) {
+    size_t               wl = 0;
+    const unsigned char *w  = ares_buf_peek(b, &wl);
+    fputs(" w=", stdout);
+    h_hex(w, w ? wl : 0);
+  }
+  fputc('\n', stdout);
+  ares_buf_destroy(b);
+  free(name);
+  free(raw);
+}
+
 int main(void)
 {
   char *tok[MAXTOK];
@@ -154,6 +191,8 @@ int main(void)
       do_xname(nt, tok, 0);
     } else if (!strcmp(tok[0], "xstr")) {
       do_xname(nt, tok, 1);
+    } else if (!strcmp(tok[0], "split")) {
+      do_split(nt, tok);
     } else {
       puts("bad-op");
     }
